@@ -61,6 +61,8 @@ thread_local! {
 }
 
 static INIT: Once = Once::new();
+static FRAMES: std::sync::Mutex<std::collections::BTreeMap<String, Option<String>>> =
+    std::sync::Mutex::new(std::collections::BTreeMap::new());
 
 fn gamedig_frame() -> Option<String> {
     let bt = std::backtrace::Backtrace::force_capture();
@@ -106,7 +108,23 @@ pub fn init() {
                 .map(|l| (l.file().to_string(), l.line()))
                 .unwrap_or_default();
             let in_repo = file.contains("crates/") || file.starts_with("src/");
-            let frame = if in_repo { None } else { gamedig_frame() };
+            let frame = if in_repo {
+                None
+            } else {
+                // symbolising a backtrace costs milliseconds: once per (location, message class)
+                let key = format!("{file}:{line}:{}", normalise(&message));
+                let cached = FRAMES.lock().ok().and_then(|m| m.get(&key).cloned());
+                match cached {
+                    Some(f) => f,
+                    None => {
+                        let f = gamedig_frame();
+                        if let Ok(mut m) = FRAMES.lock() {
+                            m.insert(key, f.clone());
+                        }
+                        f
+                    }
+                }
+            };
             let _ = LAST.try_with(|l| {
                 *l.borrow_mut() = Some(PanicRecord {
                     message,
